@@ -41,18 +41,16 @@ pub fn build_ruleset_with(env: &J, rules: Vec<Rule>) -> Result<Built, String> {
         }
     }
     if let Some(ss) = env["syms"].as_array() {
-        // the first symbol through with_symbol, the others through one with_symbols call: both entry points
-        // must leave a table in which every registered name resolves (C10, C15)
-        let mut rest: Vec<(String, Value)> = Vec::new();
-        for (i, s) in ss.iter().enumerate() {
-            if i == 0 {
-                b = b.with_symbol(uncps(&s[0])?, from_model(&s[1])?);
-            } else {
-                rest.push((uncps(&s[0])?, from_model(&s[1])?));
-            }
+        // every name is first registered with a stale value through with_symbol, then the real table through ONE
+        // with_symbols call: a symbol resolves to the value most recently registered under its name (C10, C15)
+        let mut table: Vec<(String, Value)> = Vec::new();
+        for s in ss.iter() {
+            let name = uncps(&s[0])?;
+            b = b.with_symbol(name.clone(), Value::String("stale".into()));
+            table.push((name, from_model(&s[1])?));
         }
-        if !rest.is_empty() {
-            b = b.with_symbols(Symbols::from(rest)).map_err(|e| format!("with_symbols: {e}"))?;
+        if !table.is_empty() {
+            b = b.with_symbols(Symbols::from(table)).map_err(|e| format!("with_symbols: {e}"))?;
         }
     }
     Ok(Built { ruleset: b.build(), log })
@@ -198,9 +196,29 @@ fn apply(b: Builder, op: &Op, log: &Arc<Log>) -> Result<reval::Result<Builder>, 
 fn run_builder(case: &J, log: &Arc<Log>) -> Result<Result<(RuleSet, Vec<Rule>), String>, String> {
     // shorthand: env + rules
     if case.get("builder").is_none() {
+        // one Rule value per distinct (name, expression), cloned into every ruleset that uses it
+        thread_local! {
+            static SHARED: std::cell::RefCell<std::collections::HashMap<String, Rule>> = std::cell::RefCell::new(std::collections::HashMap::new());
+        }
         let mut rules = Vec::new();
         for r in case["rules"].as_array().ok_or("TOOL: rules")? {
-            rules.push(rule_from_model(r)?);
+            let key = r.to_string();
+            let cached = SHARED.with(|m| m.borrow().get(&key).cloned());
+            let rule = match cached {
+                Some(rule) => rule,
+                None => {
+                    let rule = rule_from_model(r)?;
+                    SHARED.with(|m| {
+                        let mut m = m.borrow_mut();
+                        if m.len() > 20_000 {
+                            m.clear();
+                        }
+                        m.insert(key, rule.clone());
+                    });
+                    rule
+                }
+            };
+            rules.push(rule);
         }
         let mut b = ruleset();
         for r in &rules {
